@@ -16,7 +16,8 @@ META = {
     'stubs': simh.STUBS, 'assumptions': ['feasible configurations (each observation alone fits telescope, ingest limit, cluster, both buffers)'],
 }
 
-ALGS = {'batch1': dict(kind='batch', parts=1, min=1), 'batch2': dict(kind='batch', parts=2, min=1), 'queue': dict(kind='queue')}
+ALGS = {'batch1': dict(kind='batch', parts=1, min=1), 'batch2': dict(kind='batch', parts=2, min=1), 'queue': dict(kind='queue'),
+        'reserve1': dict(kind='reserve_only', parts=1, min=1), 'reserve2': dict(kind='reserve_only', parts=2, min=1)}
 
 
 def base_scenario(nobs=2):
@@ -96,7 +97,9 @@ def prof_three(v):
     sc['arrays'] = PIN.get('arrays', 4)
     shape = PIN.get('shape', 'chain')
     edges = {'chain': [[0, 1, 5], [1, 2, 10]], 'fork': [[0, 1, 5], [0, 2, 0]], 'join': [[0, 2, 5], [1, 2, 10]], 'free': [],
-             'tri': [[0, 1, 5], [0, 2, 10], [1, 2, 5]]}[shape]
+             'tri': [[0, 1, 5], [0, 2, 10], [1, 2, 5]],
+             # node labels that are NOT in topological order (task ids embed the label)
+             'relabel': [[0, 2, 5], [2, 1, 10], [0, 1, 5]], 'revchain': [[2, 1, 5], [1, 0, 10]], 'revjoin': [[2, 0, 5], [1, 0, 10]]}[shape]
     sc['graphs'] = [dict(n=3, edges=edges, durs=[da, db, dc])]
     sc['delays'] = PIN.get('delays', [])
     return sc
